@@ -215,7 +215,12 @@ class Borealis(TDM):
 
         for loop, offset in enumerate(phi_loop):
             if user_offsets[loop]:
-                continue
+                # a loop offset set by the user is part of the circuit and is not compensated
+                # for, but the phase gates of the loop still need to be re-referenced to the
+                # corrections applied to the previous loop
+                if not np.any(corr_previous_loop):
+                    continue
+                offset = 0
 
             # correcting for the intrinsic phase applied by the loop; the loop
             # phase is applied once at each roundtrip where a roundtrip lasts
